@@ -1059,12 +1059,33 @@ func (p *pkgInfo) settingsOf(o *out, fn string, depth int) map[string]string {
 					}
 				}
 			}
+			// g(…, <settings expression>, …): the defaults are what is handed to g
+			// (mutateSettings(options, defaultPrinterSettings()) applies the caller's options to them)
+			for _, a := range v.Args {
+				if fromExpr(a) {
+					return true
+				}
+			}
 		}
 		return false
 	}
 	settingsVar := ""
 	for _, st := range fd.Body.List {
 		switch v := st.(type) {
+		case *ast.DeclStmt:
+			// var settings printerSettings — the zero value, fields assigned afterwards
+			if gd, ok := v.Decl.(*ast.GenDecl); ok && gd.Tok == token.VAR && !found {
+				for _, sp := range gd.Specs {
+					vs, ok := sp.(*ast.ValueSpec)
+					if !ok || len(vs.Names) != 1 || len(vs.Values) != 0 {
+						continue
+					}
+					if id, ok := vs.Type.(*ast.Ident); ok && id.Name == "printerSettings" {
+						found = true
+						settingsVar = vs.Names[0].Name
+					}
+				}
+			}
 		case *ast.AssignStmt:
 			if len(v.Lhs) == 1 && len(v.Rhs) == 1 {
 				if id, ok := v.Lhs[0].(*ast.Ident); ok && !found {
@@ -1115,6 +1136,12 @@ func (p *pkgInfo) settingsOf(o *out, fn string, depth int) map[string]string {
 
 func emitSettings(o *out, name string, m map[string]string) {
 	if m == nil {
+		if name == "fprintDefaults" {
+			// containment: the definition exists in every version (the model must still build);
+			// the problem recorded by settingsOf breaks the ties of the properties that use it
+			o.line("def %s : Sqroot.PrinterDefaults := default", name)
+			return
+		}
 		o.line("-- %s: not present in this version", name)
 		return
 	}
@@ -1437,7 +1464,47 @@ func (p *pkgInfo) emitGapLoopFact(o *out) {
 		return
 	}
 	found, checks := false, false
-	ast.Inspect(fd.Body, func(n ast.Node) bool {
+	// the loop may have been moved into a helper method of printer (fillGapTo): follow such calls
+	body := fd.Body
+	for depth := 0; depth < 3; depth++ {
+		has := false
+		ast.Inspect(body, func(n ast.Node) bool {
+			if fs, ok := n.(*ast.ForStmt); ok && fs.Cond != nil {
+				has = true
+			}
+			return !has
+		})
+		if has {
+			break
+		}
+		var next *ast.BlockStmt
+		ast.Inspect(body, func(n ast.Node) bool {
+			if c, ok := n.(*ast.CallExpr); ok && next == nil {
+				if sel, ok := c.Fun.(*ast.SelectorExpr); ok {
+					if _, ok := sel.X.(*ast.Ident); ok {
+						if h := p.funcs["printer."+sel.Sel.Name]; h != nil && h != fd && h.Body != nil {
+							hasLoop := false
+							ast.Inspect(h.Body, func(m ast.Node) bool {
+								if fs, ok := m.(*ast.ForStmt); ok && fs.Cond != nil {
+									hasLoop = true
+								}
+								return !hasLoop
+							})
+							if hasLoop {
+								next = h.Body
+							}
+						}
+					}
+				}
+			}
+			return next == nil
+		})
+		if next == nil {
+			break
+		}
+		body = next
+	}
+	ast.Inspect(body, func(n ast.Node) bool {
 		fs, ok := n.(*ast.ForStmt)
 		if !ok || fs.Cond == nil {
 			return true
